@@ -1825,6 +1825,8 @@ class Exec:
                 cases = spec.split(cx2, Ctx(self, b0, self.entry, self.args0, None))
                 self.oblig(s2, f'inv.{key}.split-exhaustive', z3.Or(*[c for _, c in cases]), 'hint', tags)
             for (lab, f) in spec.inv(cx2):
+                if getattr(spec, 'split_by_label', None):
+                    cases = spec.split_by_label(cx2, Ctx(self, b0, self.entry, self.args0, None), lab) or [('', None)]
                 for cl, cc in cases:
                     if cc is None:
                         self.oblig(s2, f'inv.{key}.step.{lab}', f, 'invariant-step', tags)
